@@ -19,9 +19,11 @@ def nonempty_proper_subsets(s):
             yield frozenset(c)
 
 
-def closure(stmts):
+def closure(stmts, rule="exact"):
     """stmts: iterable of (X, Y, Z) with X, Y non-empty, pairwise disjoint.
-    returns set of canonical statements."""
+    returns set of canonical statements.  rule="f05" is NOT the reference: it is the
+    model of the recorded defect F05 (contraction fires when Y and Z are disjoint proper
+    subsets of the first statement's conditioning set), used only to recognise that defect."""
     allst = set(canon(*s) for s in stmts)
     frontier = set(allst)
     while frontier:
@@ -40,7 +42,11 @@ def closure(stmts):
                     continue
                 for X1, W, YZ in triples_of(c1):
                     for X2, Y, Z in triples_of(c2):
-                        if X1 == X2 and Y and (Y | Z) == YZ and not (Y & Z):
+                        if rule == "exact":
+                            fire = X1 == X2 and Y and (Y | Z) == YZ and not (Y & Z)
+                        else:
+                            fire = X1 == X2 and Y < YZ and Z < YZ and not (Y & Z)
+                        if fire:
                             new.add(canon(X1, W | Y, Z))
         frontier = new - allst
         allst |= frontier
